@@ -6,7 +6,7 @@ from .common import *
 
 # token indices (0 = op) holding hex payloads / payload lists, per op: used by the shrinker
 PAYLOAD = {"kg": [2], "mg": [3], "kmg": [3], "oligo": [3], "covrow": [6], "cgr": [2], "ocgr": [4],
-           "ofile": [10], "osched": [6], "cgrfile": [5], "ocgrfile": [7], "ctr": [6], "cov": [9, 10], "s2m": [5], "m2s": [5], "read": [], "cli": [4, 5], "hist": [],
+           "ofile": [10], "osched": [6], "cgrfile": [5], "ocgrfile": [7], "ctr": [6], "cov": [9, 10], "s2m": [5], "m2s": [5], "read": [], "readc": [2], "cli": [4, 5], "hist": [],
            "py:kg": [2], "py:mg": [3], "py:oligo": [3], "py:cgr": [2], "hooks": [], "csched": [], "msched": []}
 
 BASE_TRUSTED = [
@@ -537,6 +537,14 @@ def gen_C10(r, tier):
         t = pick_threads(r)
         cases.append("s2m %d %d %d %s %s" % (w, m, t, cont, hxlist(recs)))
         cases.append("m2s %d %d %d %s %s" % (w, m, pick_threads(r), cont, hxlist(recs)))
+    # megabases of long reads whose every window is broken by an N (cheap for the model: no runs at all): every
+    # record must still get its line, whatever the reader hands the workers per lock acquisition
+    for _ in range(1 if n <= 400 else 3):
+        recs = []
+        for _ in range(8 + r.below(5)):
+            L = 150000 + r.below(100000)
+            recs.append((bytes(r.choices(NUC, k=9)) + b"N") * (L // 10))
+        cases.append("s2m 15 12 %d fa %s" % (r.pick([1, 4]), hxlist(recs)))
     # records with thousands of runs each (a writer that hands a line over in pieces shows only there)
     for _ in range(1 if n <= 400 else 4):
         recs = [long_record(r, 14000 + r.below(1000)) for _ in range(2)] + many_records(r, 10, 20, 60)
@@ -622,6 +630,11 @@ def gen_C12_files(r, n):
         cont = r.pick(["fa", "faw", "fq", "fagz"])
         recs = gen_records(r, k, nmax=20, maxlen=80, container=cont)
         cases.append("ocgrfile %d %d %d %d %d %s %s" % (k, S, r.below(2), pick_threads(r), r.pick([1, 50, 1000, 4294967296]), cont, hxlist(recs)))
+    # through the binary (kmertools/src/args.rs is an anchor of this property): every accepted k, explicit sizes incl. 1
+    for k in range(3, 8):
+        for v in (None, 1, 2, 16, 1000, 2 ** 20):
+            recs = gen_records(r, k, nmax=5 if k <= 5 else 2, maxlen=60)
+            cases.append(cli_case("cgr", {"k": k, "v": v, "c": r.pick([None, 1]), "t": r.pick([None, 1, 4])}, "fa", recs))
     for L in ([65536, 70000, 200000] if n <= 400 else LONG_LENGTHS):
         k = r.pick([1, 2])
         rec = long_record(r, L + r.pick([0, k - 1, k]), amb=r.pick([0, 2]))
@@ -664,6 +677,13 @@ def gen_C06(r, tier):
                     recs.append((rid, seq)); text += hdr + seq + eol
                 exp = ",".join(hx(i_) + ":" + hx(s_) for i_, s_ in recs)
                 cases.append("read x.fa fa %s %s" % (hx(bytes(text)), exp))
+    # the same record lists through the harness' containers, among them a two-member gzip whose first member ends one
+    # byte before a 32 KiB boundary of the compressed file (stored blocks, padded in a description)
+    for cont in CONTAINERS + ["fagza", "fagza", "fagza"]:
+        for _ in range(2 if tier == "quick" else 12):
+            recs = gen_records(r, 3, nmax=30, maxlen=200, container=cont)
+            if cont == "fagza": recs = [bytes(r.choices(NUC, k=1 + r.below(300))) for _ in range(6 + r.below(60))]
+            cases.append("readc %s %s" % (cont, hxlist(recs)))
     for _ in range(n):
         fq = r.below(3) == 0
         nrec = r.pick([0, 1, 2]) if r.below(6) == 0 else r.below(25)
@@ -752,6 +772,7 @@ def gen_cli_cgr(r):
     k = edge(r, 3, 7) if r.below(2) else None
     d = {"k": k, "v": r.pick([None, 1, 2, 16, 1000, 2 ** 20]), "c": r.pick([None, None, 1]), "t": r.pick([None, 0, 1, 2, 7, 16])}
     cont = r.pick(["fa", "faw", "fq"])
+    if r.below(6) == 0: d["in"] = "-"; cont = r.pick(["fa", "fq"])      # sequences piped in on stdin
     if k is None:
         recs = [bytes(r.choices(NUC10, k=1 + r.below(50))) for _ in range(r.below(12))]
         if r.below(6) == 0 and recs: recs[r.below(len(recs))] += b"N"
@@ -761,13 +782,16 @@ def gen_cli_cgr(r):
     return "cgr", d, cont, recs
 
 def gen_cli_cov(r):
-    d = {"k": edge(r, 7, 31, also=(7, 11, 15)) if r.below(3) else None, "s": edge(r, 5, None, also=(5, 16)) if r.below(2) else None,
+    d = {"k": edge(r, 7, 31, also=(7, 11, 15)) if r.below(3) else None, "s": edge(r, 5, None, also=(5, 16, 49, 98, 103, 107)) if r.below(2) else None,
          "b": edge(r, 5, None, also=(5, 16)) if r.below(2) else None, "m": edge(r, 6, 128, also=(6,)) if r.below(3) == 0 else None,
          "p": r.pick([None, "csv", "tsv", "spc"]), "c": r.pick([None, 1]), "a": r.pick([None, None, 1]), "t": r.pick([None, 0, 1, 2, 7, 16])}
     cont = r.pick(["fa", "fq", "fagz"])
     k = d["k"] if d["k"] and 7 <= d["k"] <= 31 else 15
     recs = gen_records(r, k, nmax=12, maxlen=120, container=cont)
     if r.below(3) == 0 and recs: recs += [bytes([r.pick(NUC)]) * (k + 100)] * 2
+    if d["s"] and d["s"] >= 5 and r.below(2):      # a k-mer whose multiplicity is an exact multiple of the bin size
+        recs = [x for x in recs if len(set(x)) > 1] + [bytes([r.pick(NUC)]) * (k + d["s"] * (1 + r.below(3)) - 1)]
+        d["a"] = None
     return "cov", d, cont, recs, gen_records(r, k, nmax=8, maxlen=120)
 
 def gen_cli_min(r):
@@ -1029,6 +1053,7 @@ def gen_C13(r, tier):
         recs = [bytes(r.choices(NUC, k=r.below(30))) for _ in range(1500)]
         cases.append("py:obatch 2 1 %s" % hxlist(recs))
         cases.append("py:obatch 2 0 %s" % hxlist(recs[:700]))
+    cases.append("py:cbatch 16 %s" % hxlist([bytes(r.choices(NUC10, k=1 + r.below(12))) for _ in range(3000 if tier == "quick" else 9000)]))
     for k in (6, 4, 5, 3, 2, 1, 3):          # computers built one after another in one interpreter, k going down
         cases.append("py:header %d" % k); cases.append("py:oligo %d 0 %s" % (k, hx(b"ACGTTGCAAGGCTTAACC")))
     return cases
@@ -1061,7 +1086,7 @@ PROPS = {
     "C11": dict(gen=gen_C11, needs=["harness"], to_spec=lambda c, o: to_spec_cgrfile(c, to_spec_cgr(c, o)),
                 rule="record level: every byte value 0..255 alone and planted inside ACG?T (rejection clause, exhaustive), then seeded nucleotide strings over ACGTacgtUu of length 0..400 (thorough: some to 5000) with square sizes {1,2,3,16,1000,2^20,random}, one in five with a random byte planted; coordinates compared bit for bit with the Flocq binary64 model for every length and with the exact dyadic specification on the exactly representable prefix; non-trivial = at least one point or a rejection",
                 assumptions=["Rust f64 + and / are IEEE-754 binary64 round-to-nearest-even (Flocq's b64_plus, b64_div)"]),
-    "C12": dict(gen=gen_C12, needs=["harness"], extra=extra_C12, sample_filter=lambda c: int(c.split(" ")[1]) <= 3 and len(c) < 800,
+    "C12": dict(gen=gen_C12, needs=["harness", "cli"], extra=extra_C12, sample_filter=lambda c: not c.startswith("cli") and int(c.split(" ")[1]) <= 3 and len(c) < 800,
                 sample_limit={"quick": 40, "thorough": 150},
                 rule="record level: seeded records x k in 1..=7 x square sizes {1,2,3,9,16,1000,2^20,random} x raw/normalised; triples compared bit for bit (x, y with the Flocq model and the exact dyadic spec; f with the oligo model); each record also goes through the oligo vector: f must equal it and (x, y) must not depend on the record; non-trivial = some f non-zero",
                 assumptions=["Rust f64 arithmetic is IEEE-754 binary64 round-to-nearest-even"]),
